@@ -434,7 +434,7 @@ pub fn recommended_registry_package_url(
   nv: &PackageNv,
 ) -> Url {
   registry_url
-    .join(&format!("{}/{}/", nv.name, nv.version))
+    .join(&format!("./{}/{}/", nv.name, nv.version))
     .unwrap()
 }
 
